@@ -1,4 +1,5 @@
 """C03 — invariants are checked around every public operation on a constructed object (and never during construction)."""
+import inspect
 import itertools
 from typing import Any, Dict, List, Optional, Tuple
 
@@ -16,6 +17,7 @@ RULE = (
     "own __new__} x subclass constructors calling super().__init__() first / in the middle / last / never, assigning attributes "
     "and calling public methods during construction, subclasses adding __init__ to a base without one x invariants with "
     "check_on in {CALL, SETATTR, ALL} in every decorator order, split across base and subclasses x members {public method, "
+    "public and protected coroutine (async def) methods driven through a real suspension, "
     "_protected, __private, __call__, __len__, __eq__, __getattr__, __repr__, __getattribute__, __setattr__ defined in Python, "
     "property get/set/del, class method, static method} x operation sequences (construct, call, attribute set on plain attribute "
     "and on property, delete, len(), call(), ==, repr(), missing attribute) x truth sequences in which an invariant flips "
@@ -142,6 +144,9 @@ def render_class(plan: ClassPlan, plans: Dict[str, ClassPlan], rng) -> str:
                          "    object.__setattr__(self, key, value)"]
             elif name == "__call__":
                 body += ["def __call__(self, q=0):", "    return HUB.body({!r}, {{'self': self}})".format(mid)]
+            elif name in ("apub", "_aprot"):
+                # public / protected coroutine methods: the invariants surround the awaited call, with a real suspension inside
+                body += ["async def {}(self, q=0):".format(name), "    await TICK('body')", "    return HUB.body({!r}, {{'self': self}})".format(mid)]
             else:
                 body += ["def {}(self, q=0):".format(name), "    return HUB.body({!r}, {{'self': self}})".format(mid)]
         elif kind == "static":
@@ -174,7 +179,7 @@ def make_program(rng, ids: gen.Ids, depth: int, dbc: bool, flavour: str) -> Tupl
     plans = {}  # type: Dict[str, ClassPlan]
     order = []
     prev = None
-    pool = ["pub", "pub2", "_prot", "__priv", "__call__", "__len__", "__eq__", "__getattr__", "__repr__", "__getattribute__",
+    pool = ["pub", "pub2", "apub", "_aprot", "_prot", "__priv", "__call__", "__len__", "__eq__", "__getattr__", "__repr__", "__getattribute__",
             "__setattr__", "prop", "cm", "sm"]
     for level in range(depth):
         plan = ClassPlan(ids.new("K"))
@@ -229,7 +234,7 @@ def make_program(rng, ids: gen.Ids, depth: int, dbc: bool, flavour: str) -> Tupl
     return "".join(src), plans, order
 
 
-HEADER = "import dataclasses\nimport typing\nimport icontract\n\n"
+HEADER = "import dataclasses\nimport typing\nimport icontract\nfrom vkit.probe import Tick as TICK\n\n"
 
 
 class Oracle:
@@ -365,7 +370,10 @@ def perform_op(inst: Any, cls_obj: Any, op: Dict[str, Any]) -> Tuple[bool, Any]:
             return True, None
         if name == "__priv":
             return True, getattr(inst, "_{}__priv".format(op["owner"]))()
-        return True, getattr(inst, name)()
+        res = getattr(inst, name)()
+        if inspect.iscoroutine(res):
+            res = probe.drive(res)
+        return True, res
     except BaseException as err:  # pylint: disable=broad-except
         return False, err
 
